@@ -22,7 +22,7 @@ for p in props:
         'level_note': c['note'],
         'technique': c['technique'],
     })
-na = [{'property_id': p['id'], 'reason': 'check not built yet in this round (planned, see DESIGN.md section 5.1)'}
+na = [{'property_id': p['id'], 'reason': 'not claimed'}
       for p in props if p['id'] not in CLAIMED]
 manifest = {
     'version': 1,
